@@ -68,7 +68,9 @@ def parseOp (t : List String) : Option POp :=
   | [_, "newring", n] => do pure (.newRing (← n.toNat?))
   | a :: "push" :: ud :: rest => do
     let ud ← ud.toNat?
-    let link := rest.getLast? == some "link"
+    let link := match rest.getLast? with
+      | some t => if t.startsWith "fl=" then hasUnsupported ((t.drop 3).toNat?.getD 0) else false
+      | none => false
     let k ← match rest with
       | "read" :: fd :: off :: len :: _ => do pure (Kind.read (← fd.toNat?) (← off.toNat?) (← len.toNat?))
       | "write" :: fd :: off :: d :: _ => do pure (Kind.write (← fd.toNat?) (← off.toNat?) (unhex d))
